@@ -219,6 +219,34 @@ impl AsyncRead for Src {
             }
         }
     }
+
+    fn poll_read_vectored(self: Pin<&mut Self>, cx: &mut Context<'_>, bufs: &mut [io::IoSliceMut<'_>]) -> Poll<io::Result<usize>> {
+        self.vectored(cx, bufs)
+    }
+}
+
+impl Src {
+    /// Native vectored read (the default would only use the first slice): one decision for the
+    /// total capacity, the bytes are spread across the slices.
+    fn vectored(mut self: Pin<&mut Self>, cx: &mut Context<'_>, bufs: &mut [io::IoSliceMut<'_>]) -> Poll<io::Result<usize>> {
+        let total: usize = bufs.iter().map(|b| b.len()).sum();
+        let mut tmp = vec![0u8; total];
+        match self.as_mut().poll_read(cx, &mut tmp) {
+            Poll::Ready(Ok(n)) => {
+                let mut off = 0;
+                for b in bufs.iter_mut() {
+                    if off >= n {
+                        break;
+                    }
+                    let t = (n - off).min(b.len());
+                    b[..t].copy_from_slice(&tmp[off..off + t]);
+                    off += t;
+                }
+                Poll::Ready(Ok(n))
+            }
+            other => other,
+        }
+    }
 }
 
 /// Scripted sink.
@@ -304,6 +332,15 @@ impl AsyncWrite for Sink {
             }
         }
     }
+    /// Native vectored write: one decision for everything that is offered.
+    fn poll_write_vectored(self: Pin<&mut Self>, cx: &mut Context<'_>, bufs: &[io::IoSlice<'_>]) -> Poll<io::Result<usize>> {
+        let mut tmp: Vec<u8> = Vec::new();
+        for b in bufs {
+            tmp.extend_from_slice(b)
+        }
+        self.poll_write(cx, &tmp)
+    }
+
     fn poll_flush(self: Pin<&mut Self>, _: &mut Context<'_>) -> Poll<io::Result<()>> {
         Poll::Ready(Ok(()))
     }
